@@ -184,8 +184,9 @@ Proof.
   - destruct (IH _ _ H) as [H1 H2]. cbn [length]. lia.
 Qed.
 
-Lemma name_new_single : forall p, name_new [p] = p.
-Proof. intro p. unfold name_new. cbn. rewrite app_nil_r. reflexivity. Qed.
+(* Name::new trims the part; the word `item` has nothing to trim *)
+Lemma name_new_item : name_new [str_item] = str_item.
+Proof. reflexivity. Qed.
 
 (* whatever the scope and the flag: the token is the normal form of a prefix of k >= 1 collected parts; the lexer resumes right
    after part k, except when no prefix is bound: then the token is the whole candidate and the lexer resumes where the
@@ -215,7 +216,7 @@ Proof.
     - exists (length parts). split; [lia|]. right. split; [reflexivity|]. split; [exact (search_none _ _ _ Es)|reflexivity]. }
   destruct parts as [|p0 ps]; [cbn in Hlen; lia|].
   destruct (str_eqb p0 str_item) eqn:Ei.
-  - exists 1. split; [cbn [length]; lia|]. left. apply str_eqb_eq in Ei. subst p0. cbn [firstn Nat.sub]. rewrite name_new_single. reflexivity.
+  - exists 1. split; [cbn [length]; lia|]. left. apply str_eqb_eq in Ei. subst p0. cbn [firstn Nat.sub]. rewrite name_new_item. reflexivity.
   - destruct till_in; [|exact Hreg].
     destruct (index_of str_in (p0 :: ps) 0) as [[|i]|] eqn:Ein; [exact Hreg| |exact Hreg].
     destruct (index_of_some _ _ _ _ Ein) as [_ Hi]. exists (S i). split; [lia|]. left.
